@@ -15,6 +15,7 @@ from ..rules import kind
 U = "uxarray/remap/utils.py"
 NN = "uxarray/remap/nearest_neighbor.py"
 IDW = "uxarray/remap/inverse_distance_weighted.py"
+UT = "uxarray/remap/utils.py"
 ELEMENT = {"nodes": ("node", "n_node"), "face centers": ("face", "n_face"), "edge centers": ("edge", "n_edge")}
 
 
@@ -33,6 +34,7 @@ def check(run):
     _tables(run, P)
     _provenance(run, P)
     _idw(run, P)
+    _query_dependence(run, P)
     _results(run, P)
 
 
@@ -262,6 +264,45 @@ def _provenance(run, P):
             run.violation("IDX/remap-provenance", c, where(g, un), "; ".join(probs))
         else:
             run.holds("IDX/remap-provenance", c, where(g, un), f"source_data[..., {idx_name}] with indices from the source tree queried at the destination points")
+
+
+def _query_dependence(run, P):
+    """_remap_grid_parse: the points that are looked up must vary with the DESTINATION kind (remap_to) and the destination grid, the tree they are looked up in with the
+    SOURCE kind (source_data_mapping) and the source grid - by data or by control dependence.  A query point set that does not depend on remap_to at all is the same
+    whatever the caller asks for: results labelled with the destination dimension then have another element kind's length."""
+    from ..astutil import dependence
+    f = P.func(f"{UT}:_remap_grid_parse")
+    dep = dependence(f.node)
+    ps = f.params()
+    c = f"{f.key}:query-depends-on-kinds"
+    queries = [n for n in ast.walk(f.node) if isinstance(n, ast.Call) and isinstance(n.func, ast.Attribute) and n.func.attr == "query" and n.args]
+    if not queries:
+        run.incomplete("F-TABLE/remap-kinds", c, where(f), "no tree query found")
+        return
+
+    def deps_of(e):
+        out = set()
+        for n in ast.walk(e):
+            if isinstance(n, ast.Name):
+                out.add(n.id)
+                out |= dep.get(n.id, set())
+        return out
+    probs = []
+    for q in queries:
+        pts = deps_of(q.args[0])
+        tree = deps_of(q.func.value)
+        if "remap_to" in ps and "remap_to" not in pts:
+            probs.append(f"the queried points {norm(q.args[0])[:30]} do not depend on remap_to (they depend on {sorted(pts & set(ps))})")
+        if "destination_grid" in ps and "destination_grid" not in pts:
+            probs.append(f"the queried points {norm(q.args[0])[:30]} do not depend on destination_grid")
+        if "source_grid" in ps and "source_grid" not in tree:
+            probs.append("the tree that is queried does not depend on source_grid")
+        if "source_data_mapping" in ps and "source_data_mapping" not in tree:
+            probs.append("the tree that is queried does not depend on source_data_mapping (the kind of element the source data sit on)")
+    if probs:
+        run.violation("F-TABLE/remap-kinds", c, where(f, queries[0]), "; ".join(sorted(set(probs))))
+    else:
+        run.holds("F-TABLE/remap-kinds", c, where(f, queries[0]), "queried points vary with (destination_grid, remap_to); the tree with (source_grid, source_data_mapping)")
 
 
 def _idw(run, P):
